@@ -13,12 +13,12 @@ func init() {
 	register(&Profile{
 		Name:     "C19",
 		Property: "C19",
-		Gen:      genC19,
+		Gen:      func(g *Gen) *Plan { return swarm(g, genC19(g), 0.2, 0) },
 		Oracles:  []func(o *Outcome) []Violation{oracleC19, livenessOracle("C19")},
 		NonTrivial: func(o *Outcome) bool {
 			return o.Hist.FaultFired["net:down"]+o.Hist.FaultFired["net:blackhole"] > 0 && o.Hist.Probes["batch-checked"] > 0
 		},
-		Rule:         "seeded plans: one upstream with 1-4 servers (primary / backup mixes), policy first / roundRobin / random / leastconn, optional http ping path, in 30% of the plans beside a second upstream with a location of its own; a scripted sequence of network events (server refuses connections, black-holes them until the check times out, accepts again); after every event the simulated clock is advanced by 30-41s (settle: rest of a running check round + next tick + one full round of sequential 3s-timeout probes), then a sequential batch of 4-12 requests. The health checker is the real library code driven by the fake ticker; only the TCP dial is simulated. Oracle after settle: every request reaches a server that is up, a backup only if no primary is up, round robin spreads a batch evenly over the healthy primaries (counts differ by <= 1), with no server up every request gets a 5xx at once without reaching any origin, and traffic resumes by itself after recovery. non-trivial = at least one outage was injected and a batch checked; distinct = distinct history hash",
+		Rule:         "seeded plans: one upstream with 1-4 servers (primary / backup mixes), policy first / roundRobin / random / leastconn, optional http ping path (/ping or /; a server may then keep its port open while its health URL answers 500), in 30% of the plans beside a second upstream with a location of its own; a scripted sequence of network events (server refuses connections, black-holes them until the check times out, accepts again); after every event the simulated clock is advanced by 30-41s (settle: rest of a running check round + next tick + one full round of sequential 3s-timeout probes), then a sequential batch of 4-12 requests. The health checker is the real library code driven by the fake ticker; only the TCP dial is simulated. Oracle after settle: every request reaches a server that is up, a backup only if no primary is up, round robin spreads a batch evenly over the healthy primaries (counts differ by <= 1), with no server up every request gets a 5xx at once without reaching any origin, and traffic resumes by itself after recovery. in a fifth of the plans a tenth of the clients disconnect at a scheduler-chosen step. non-trivial = at least one outage was injected and a batch checked; distinct = distinct history hash",
 		ExpectProbes: []string{"batch-checked", "batch-all-down", "batch-backup-only", "batch-after-recovery", "round-robin-batch", "blackhole-settled", "reload-of-unchanged-upstream"},
 	})
 }
@@ -34,7 +34,7 @@ func genC19(g *Gen) *Plan {
 		servers = append(servers, UpstreamSrv{Addr: "http://" + a, Backup: ns > 1 && g.p(0.35)})
 	}
 	policy := pick(g, "first", "roundRobin", "roundRobin", "random", "leastconn", "")
-	up := UpstreamCfg{Name: "u1", Policy: policy, Servers: servers, HealthCheck: pick(g, "", "", "/ping")}
+	up := UpstreamCfg{Name: "u1", Policy: policy, Servers: servers, HealthCheck: pick(g, "", "", "/ping", "/")}
 	p.Configs = []Config{{
 		Caches:    []CacheCfg{{Name: "c1", Size: 1000, HitForPass: "300s"}},
 		Upstreams: []UpstreamCfg{up},
@@ -67,7 +67,12 @@ func genC19(g *Gen) *Plan {
 		k := g.n(1, max(1, ns))
 		for j := 0; j < k; j++ {
 			a := addrs[g.R.IntN(len(addrs))]
-			p.Ops = append(p.Ops, Op{Kind: OpHealth, Server: a, Net: pick(g, "down", "down", "blackhole", "up", "up")})
+			mode := pick(g, "down", "down", "blackhole", "up", "up")
+			if up.HealthCheck != "" && g.p(0.3) {
+				// still listening, but its health URL answers 500
+				mode = "http500"
+			}
+			p.Ops = append(p.Ops, Op{Kind: OpHealth, Server: a, Net: mode})
 		}
 		if g.p(0.15) {
 			for _, a := range addrs {
@@ -143,8 +148,16 @@ func oracleC19(o *Outcome) []Violation {
 			o.Hist.Probes["batch-after-recovery"]++
 		}
 		counts := map[string]int{}
+		gone := false
 		for _, v := range batch {
 			r := v.R
+			if r.Cancelled {
+				gone = true
+				// its client went away: whatever it got is its own business (what it may have done
+				// to the requests after it is theirs)
+				o.Hist.Probes["batch-request-with-client-gone"]++
+				continue
+			}
 			if len(allowed) == 0 {
 				o.Hist.Probes["batch-all-down"]++
 				if len(v.OwnUps) > 0 {
@@ -174,7 +187,8 @@ func oracleC19(o *Outcome) []Violation {
 				out = append(out, violation("C19", kind, sig, "client op %d was forwarded to %s; network %v, backups %v, allowed %v", r.Op, t, net, backup, allowed))
 			}
 		}
-		if (up.Policy == "roundRobin" || up.Policy == "") && len(allowed) > 1 {
+		// (a request whose client left may or may not have taken its turn: no evenness claim then)
+		if (up.Policy == "roundRobin" || up.Policy == "") && len(allowed) > 1 && !gone {
 			o.Hist.Probes["round-robin-batch"]++
 			lo, hi := 1<<30, 0
 			for _, a := range allowed {
